@@ -55,6 +55,8 @@ Record entry := mkE {
   e_msg : string
 }.
 
+(* count_transitions(): sum of len(row).  (run_games guards the call with `except TypeError`
+   for rows that are not sized collections; on typed descriptions every row is a list.) *)
 Definition count_transitions (g : game) : nat :=
   fold_left (fun s row => s + length row) (g_trans g) 0.
 
